@@ -240,7 +240,7 @@ def churn_shard(shard, nshards, seed, tier, exe, nhist):
                     found, uid, isnull = int(f[1]), int(f[2]), int(f[3])
                     if bool(found) != st[2] or (st[2] and ((st[3] is None) != bool(isnull) or (st[3] is not None and uid != st[3]))) or f[4] != "same=1":
                         key, what = "lookup", "lookup of %r gave %s, model says present=%s value=%s" % (st[1][:20], f[1:], st[2], st[3])
-                    elif f[5] != "exists=%d" % found or f[6] != "noobj=0,1":
+                    elif f[5] != "exists=%d" % found or f[6] != "noobj=0,1" or f[7] != "notobj=0,1,0":
                         key, what = "lookup-corner-form", "get_ex without result pointer / without object: %s (found=%d)" % (f[5:], found)
                     sh.count("op.get")
                 elif k == "snap":
